@@ -287,6 +287,29 @@ theorem C10_cursor_read (h : Heap) (pre : List Nat) (p : Nat) (post : List Nat)
   · intro e; subst e; exact next_end h pre p hw.seg hw.nodup
   · intro q r e; subst e; exact next_cell h pre p q r hw.seg hw.nodup
 
+/-- **List methods agree with the abstract sequence** `A = abs h xs` of any well-formed heap:
+`Each` (stopped anywhere, or never), `Len`, `Peek n`, `IsEmpty` read `A`; `At n`, `Find`, `Last`,
+`End` return (without panic or fuel exhaustion) a cursor whose position — the length of the chain
+prefix before its `pred` — is `min n |A|`, the index of the first match (`|A|` if none),
+`|A| - 1` (0 for the empty list), `|A|`. -/
+theorem C10_list_queries (h : Heap) (ids : List Nat) (hw : WF h (0 :: ids)) :
+    let A := abs h (0 :: ids)
+    (each h none = .ok A ∧ ∀ k, each h (some k) = .ok (A.take (k + 1))) ∧
+    len h = .ok A.length ∧
+    (∀ n, peek h n = .ok (match A[n]? with | some v => (v, true) | none => (0, false))) ∧
+    Mlink.isEmpty h = A.isEmpty ∧
+    (∀ n, ∃ pre p post, 0 :: ids = pre ++ p :: post ∧ pre.length = min n A.length ∧ at_ h n = .ok p) ∧
+    (∀ v, ∃ pre p post, 0 :: ids = pre ++ p :: post ∧ pre.length = A.findIdx (· == v) ∧ find h v = .ok p) ∧
+    (∃ pre p post, 0 :: ids = pre ++ p :: post ∧ pre.length = A.length - 1 ∧ last h = .ok p) ∧
+    (∃ pre p, 0 :: ids = pre ++ [p] ∧ end_ h = .ok p) := by
+  have hA : abs h (0 :: ids) = ids.map h.val := rfl
+  simp only [hA, List.length_map]
+  refine ⟨⟨by simpa using each_wf h ids hw none, fun k => by simpa [List.map_take] using each_wf h ids hw (some k)⟩,
+    ?_, peek_wf h ids hw, ?_, at_wf h ids hw, find_wf h ids hw, last_wf h ids hw, end_wf h ids hw⟩
+  · simp [len, each_wf h ids hw none]
+  · have := cell_link h [] 0 ids none hw.seg
+    simp only [Mlink.isEmpty, this]; cases ids <;> simp
+
 /-- non-vacuity of `WF` and of the position view: the heap built by `End; Add 1 2 3 4` is well formed
 with chain `[0,1,2,3,4]`, and the cursor with `pred = 2` is at position 2 -/
 example : (run {} [.end_ 0, .add 0 [1, 2, 3, 4], .at_ 1 2, .get 1, .remove 1, .each 9]) =
